@@ -336,6 +336,15 @@ fn compute_loop_alphabeta(loop_bandwidth: f32) -> (f32, f32) {
     (alpha, beta)
 }
 
+/// Verification hook (feature `verif-hooks`): the private PI-gain computation
+#[cfg(feature = "verif-hooks")]
+#[doc(hidden)]
+pub mod verif_hooks {
+    pub fn loop_alphabeta(loop_bandwidth: f32) -> (f32, f32) {
+        super::compute_loop_alphabeta(loop_bandwidth)
+    }
+}
+
 #[cfg(test)]
 mod tests {
     use super::*;
